@@ -75,6 +75,20 @@ func selectCaseAppends(p *an.Prog, fn *ssa.Function) (send, recv []ssa.Instructi
 
 func notifierRules(c *Ctx) {
 	P := c.P
+	// SubscribeCancel: the watcher that unsubscribes on cancellation is started only after the subscription was made.
+	// (Started earlier, a duplicate Subscribe - which panics and, via the deferred cancel, fires the watcher - would
+	// remove the ORIGINAL subscription: "duplicate Subscribe panics without changing the registry".)
+	if q := c.F("(*Notifier).SubscribeCancel"); q.ok() {
+		subs := P.CallsTo(q.fn, "(*Notifier).SubscribeContext")
+		gos := an.AllInstrs(q.fn, func(in ssa.Instruction) bool { _, ok := in.(*ssa.Go); return ok })
+		if q.need(subs, "PATH", "SubscribeContext call in SubscribeCancel") && q.need(gos, "PATH", "watcher goroutine of SubscribeCancel") {
+			for _, g := range gos {
+				ok := P.Before(q.fn, an.In(subs), g)
+				q.add("PATH", "the cancellation watcher starts only after the subscription was registered", ok,
+					pickS(ok, "SubscribeContext precedes the go statement on every path", "the watcher that calls Unsubscribe can be running before SubscribeContext succeeded: when that call panics (duplicate subscription) the deferred cancel makes the watcher remove the subscription that was already there"), g)
+			}
+		}
+	}
 	// panic-before-mutation
 	for _, name := range []string{"(*Notifier).SubscribeContext", "(*Notifier).Unsubscribe"} {
 		q := c.F(name)
